@@ -53,6 +53,18 @@ CHECKS.update({
   text="For each program (multi-output, region store, multi-stage rechunk, fused/unfused, reduction, create-arrays only) x optimize x parallel x batch size: advertised num_tasks == len(mappable) == tasks run == task-end notifications per op; plan total == sum; one compute-start first / compute-end last; per op exactly one start and end around its task events.",
   note="Processes executor not run (shares async_map_dag with threads)."),
 })
+CHECKS.update({
+ "C06": dict(
+  category="model_checking", design_ref="DESIGN.md 4/C06, 3.3", engine="cexec",
+  technique="exhaustive enumeration of task schedules (permutations, duplicate executions at every later position, pickled and fresh-interpreter placement) of real finalized plans on a controlled executor, comparing every stored byte with a reference run",
+  text="For 16 (quick) / 35 (thorough) programs, fused and unfused: every permutation of the tasks of each op (<= 4 tasks; structured variants above), every single duplicate execution at every later schedule position incl. after downstream ops (pairs in thorough), each in-process and through a cloudpickle round trip, plus execution of every task by cubed's unpickle_and_call in a freshly spawned interpreter with duplicates. After each schedule all stores hold the reference bytes, repeated sets carry identical bytes, results equal NumPy; random arrays regenerate identically and blocks differ.",
+  note="Schedules are total orders (true overlap of two tasks on one chunk is excluded by C05); states = distinct store contents after any task."),
+ "C09": dict(
+  category="fault_enumeration", design_ref="DESIGN.md 4/C09", engine="cexec",
+  technique="exhaustive crash-point enumeration: the store is restored to every prefix of the clean run's mutation log (and every subset of completed tasks per op) and compute(resume=True) is run on the same lazy arrays",
+  text="For 8 (quick) / 11 (thorough) programs x optimize on/off: every crash point at chunk-write granularity; resumed on the controlled and virtual executors (thorough: also with the other optimize setting): result equals the clean run or the plan is refused up front because its storage cannot report completeness; no delete, no pre-crash chunk lost; ops with an incomplete output run, ops whose outputs were complete do not (create-arrays and 0-d excepted).",
+  note="A stored object is atomic (no torn write within one key)."),
+})
 
 NOT_YET = {
 }
